@@ -82,6 +82,17 @@ CLAIMED["C05"] = dict(
          "open and periodic; (c) op(rotate90(f)) == rotate90(op(f)) cell by cell for free values; (d) refusals.",
     ref="DESIGN.md section 2 / C05",
 )
+CLAIMED["C07"] = dict(
+    text="Field.sel (plane at a symbolic coordinate or the central cell; range with symbolic bounds in either order), "
+         "Field[name], Field[Region] with symbolic box corners, Mesh.region2slices, Field.pad (widths 0..2, constant/wrap/"
+         "edge/symmetric) and Field.resample run on symbolic cell values and symbolic validity bits; every result cell is "
+         "compared with the source cell at the same physical position (closed-form index maps, tolerance band at faces), "
+         "result geometry with the documented block (containing cells, smallest block, grown region); integer-typed corners "
+         "and decimal cell sizes are separate configurations whose every path is additionally replayed natively.",
+    ref="DESIGN.md section 2 / C07",
+    note=NOTE_COMMON + "; Field[Region] and resample use concrete mesh geometry (symbolic box corners / values): floor/ceil of "
+         "a symbolic corner over a symbolic cell size is beyond z3's nonlinear reach within the quick budget",
+)
 PENDING_REASON = "check not built yet in this round (planned: DESIGN.md section 2); not claimed until it runs green"
 NA = {}
 
